@@ -616,6 +616,12 @@ class Exec(object):
         e = node.exc
         if isinstance(e, ast.Call):
             f = self.eval(e.func)
+            # the message is opaque, but building it must not itself fail (arity of %-formatting, unbound names)
+            for a in e.args:
+                try:
+                    self.eval(a)
+                except Unsupported:
+                    pass
         else:
             f = self.eval(e)
         if isinstance(f, ClassRef):
@@ -1535,6 +1541,11 @@ class Exec(object):
     def str_format_percent(self, fmt, args):
         if isinstance(fmt, str):
             tup = args if isinstance(args, tuple) else (args,)
+            import re as _re
+            nspec = len(_re.findall(r"%(?!%)", fmt.replace("%%", "")))
+            if "%(" not in fmt and nspec != len(tup):
+                raise Raised(TypeError, None, implicit=True,
+                             note="%%-format with %d specifiers applied to %d values" % (nspec, len(tup)))
             conc = [try_concrete_str(x) if isinstance(x, SStr) else x for x in tup]
             if all(not is_sym(x) and x is not None or x is None and y is None for x, y in zip(conc, tup)):
                 try:
